@@ -9,7 +9,8 @@ package lsm
 // SegmentIndex (when set). ptrs is the snapshot taken inside the function.
 //@ func (*levelManager).canRemoveWalSegment
 //@   property C36
-//@   ensures [false-if-needed] result && lm != nil && lm.manifestMgr != nil ==> (forall gid uint64 :: has(ptrs, gid) ==> (ptrs[gid].Segment == 0 || id < ptrs[gid].Segment) && (ptrs[gid].SegmentIndex == 0 || math(id) < math(ptrs[gid].SegmentIndex)))
+//@   exit [false-if-needed] result && lm != nil && lm.manifestMgr != nil ==> (forall gid uint64 :: has(ptrs, gid) ==> (ptrs[gid].Segment == 0 || id < ptrs[gid].Segment) && (ptrs[gid].SegmentIndex == 0 || math(id) < math(ptrs[gid].SegmentIndex)))
+//@   ghost lastCanRemove = result
 //@   loop 1 invariant [seen-below] lm != nil && (forall gid uint64 :: seen(gid) ==> (ptrs[gid].Segment == 0 || id < ptrs[gid].Segment) && (ptrs[gid].SegmentIndex == 0 || math(id) < math(ptrs[gid].SegmentIndex)))
 //@   modifies nothing
 
@@ -36,3 +37,93 @@ package lsm
 //@   ensures [covers-active-memtable] lsm != nil && lsm.memTable != nil ==> result >= lsm.memTable.maxVersion
 //@   ensures [covers-immutables] lsm != nil ==> (forall i int :: 0 <= i && i < len(lsm.immutables) && lsm.immutables[i] != nil ==> result >= lsm.immutables[i].maxVersion)
 //@   loop 1 invariant [seen-immutables] lsm != nil && (lsm.memTable != nil ==> max >= lsm.memTable.maxVersion) && (forall i int :: 0 <= i && i <= rangeindex && i < len(lsm.immutables) && lsm.immutables[i] != nil ==> max >= lsm.immutables[i].maxVersion)
+
+// C36 (flush half): a WAL segment that held entries is deleted by flush only after the
+// manifest edit installing its SST was logged successfully AND canRemoveWalSegment agreed;
+// on an error before that nothing is deleted. Ghost state records, at each RemoveSegment
+// call, what had been established.
+//@ ghost var editsLogged Int
+//@ ghost var walRemovals Int
+//@ ghost var sawValidEntry bool
+//@ ghost var lastCanRemove bool
+//@ ghost var removalSawEdits Int
+//@ ghost var removalSawCan bool
+//@ ghost var removalSawEntry bool
+//@ func github.com/feichai0017/NoKV/manifest::(*Manager).LogEdits
+//@   trusted
+//@   ghost editsLogged = (result == nil ? editsLogged + 1 : editsLogged)
+//@   modifies nothing
+//@ func github.com/feichai0017/NoKV/wal::(*Manager).RemoveSegment
+//@   trusted
+//@   ghost walRemovals = walRemovals + 1
+//@   ghost removalSawEdits = editsLogged
+//@   ghost removalSawCan = lastCanRemove
+//@   ghost removalSawEntry = sawValidEntry
+//@   modifies nothing
+//@ func github.com/feichai0017/NoKV/utils::(Iterator).Valid
+//@   trusted
+//@   ghost sawValidEntry = sawValidEntry || result
+//@   modifies nothing
+//@ func github.com/feichai0017/NoKV/utils::(Iterator).Next
+//@   trusted
+//@   modifies nothing
+//@ func github.com/feichai0017/NoKV/utils::(Iterator).Rewind
+//@   trusted
+//@   modifies nothing
+//@ func github.com/feichai0017/NoKV/utils::(Iterator).Close
+//@   trusted
+//@   modifies nothing
+//@ func github.com/feichai0017/NoKV/utils::(Iterator).Item
+//@   trusted
+//@   modifies nothing
+//@ func github.com/feichai0017/NoKV/utils::(Item).Entry
+//@   trusted
+//@   modifies nothing
+//@ func github.com/feichai0017/NoKV/utils::FileNameSSTable
+//@   trusted
+//@   modifies nothing
+//@ func (*memTable).NewIterator
+//@   trusted
+//@   modifies nothing
+//@ func newTableBuiler
+//@   trusted
+//@   modifies nothing
+//@ func (*tableBuilder).AddKey
+//@   trusted
+//@   modifies nothing
+//@ func openTable
+//@   trusted
+//@   modifies nothing
+//@ func (*table).Size
+//@   trusted
+//@   modifies nothing
+//@ func (*table).MinKey
+//@   trusted
+//@   modifies nothing
+//@ func (*table).MaxKey
+//@   trusted
+//@   modifies nothing
+//@ func (*table).ValueSize
+//@   trusted
+//@   modifies nothing
+//@ func (*levelManager).setLogPointer
+//@   trusted
+//@   modifies nothing
+//@ func (*levelHandler).add
+//@   trusted
+//@   modifies nothing
+//@ func github.com/feichai0017/NoKV/lsm/compact::(*Manager).Trigger
+//@   trusted
+//@   modifies nothing
+// (the frames above are about flush's own later reads: none of these callees touches the
+// local values flush keeps using; their effects on tables, levels and the manifest are
+// not specified here)
+
+//@ func (*levelManager).flush
+//@   property C36
+//@   requires [fresh-observation] !sawValidEntry
+//@   requires [has-level-0] lm != nil && len(lm.levels) > 0 && immutable != nil
+//@   ensures [entries-removed-only-after-install] walRemovals > old(walRemovals) && removalSawEntry ==> removalSawEdits > old(editsLogged) && removalSawCan
+//@   ensures [at-most-one-removal] walRemovals <= old(walRemovals) + 1
+//@   ensures [error-before-install-removes-nothing] err != nil && editsLogged == old(editsLogged) && sawValidEntry ==> walRemovals == old(walRemovals)
+//@   loop 1 invariant [building] walRemovals == old(walRemovals) && editsLogged == old(editsLogged) && sawValidEntry
